@@ -303,8 +303,8 @@ func c20Typestate(p *an.Prog, r *an.R) {
 		}
 		return true
 	})
-	r.Floor("C20.R2.closures", 2, lits)
-	r.Floor("C20.R2.release-sites", 2, releases)
+	r.Floor("C20.R2.closures", 1, lits)
+	r.Floor("C20.R2.release-sites", 1, releases)
 	r.Floor("C20.R2.sem-assignments", 1, sets)
 }
 
